@@ -5,7 +5,8 @@
              src/cooler/fileops.py (_is_cooler, list_coolers).
     No proofs here (Proofs/CreateProofs.v). *)
 From Cooler Require Export Model.Pixels.
-From Coq Require Export String Ascii.
+From Coq Require Export String Ascii List.
+Export ListNotations.
 Open Scope Z_scope.
 
 (** * Rows.  A pixel record is (key, payload); the payload type [V] is arbitrary (count only: Z;
@@ -94,16 +95,30 @@ Fixpoint write_pixels (validate : list rowT -> cerr + list rowT) (maxsize : Z)
       end
   end.
 
+(** integer range check of write_pixels for list payloads: per value column, Some (lo, hi) = limits of an
+    integer output dtype fed with integer input, None = no check (float column) *)
+Fixpoint fits_lims (lims : list (option (Z * Z))) (vs : list Z) : bool :=
+  match lims, vs with
+  | Some (lo, hi) :: lt, v :: vt => (lo <=? v) && (v <=? hi) && fits_lims lt vt
+  | None :: lt, _ :: vt => fits_lims lt vt
+  | _, _ => true
+  end.
+
 (** ** _create.create : what is observable of the result through pixels/info *)
 Record cool := { c_rows : list rowT; c_nnz : Z; c_sum : Z; c_symm : bool; c_nbins : Z }.
 
 Definition max_size (n : Z) (symm : bool) : Z := if symm then n * (n - 1) / 2 + n else n * n.
+(** prepare_pixels: datasets are created with init_size = min(5 * n_bins, max_size) fill values; they are
+    only cut to size by the first resize in write_pixels (so an iterator that yields no chunk at all
+    leaves init_size stale fill rows behind nnz = 0) *)
+Definition init_state (n : Z) (symm : bool) : wstate :=
+  (repeat dflt (Z.to_nat (Z.min (5 * n) (max_size n symm))), 0, 0).
 
 Definition create (n : Z) (symmetric_upper boundscheck triucheck dupcheck ensure_sorted : bool)
            (chunks : list (list rowT)) : cerr + cool :=
   let triucheck := triucheck && symmetric_upper in      (* "Changing to False" for square storage *)
   match write_pixels (validate_pixels n boundscheck triucheck dupcheck ensure_sorted)
-                     (max_size n symmetric_upper) ([], 0, 0) chunks with
+                     (max_size n symmetric_upper) (init_state n symmetric_upper) chunks with
   | inl e => inl e
   | inr (stored, nnz, total) =>
       inr {| c_rows := stored; c_nnz := nnz; c_sum := total; c_symm := symmetric_upper; c_nbins := n |}
@@ -114,8 +129,8 @@ Definition create_cooler_frame (n : Z) (symmetric_upper boundscheck triucheck du
            (frame : list rowT) : cerr + cool :=
   create n symmetric_upper boundscheck triucheck dupcheck ensure_sorted [sort_rows frame].
 
-(** Cooler.pixels()[:] *)
-Definition read_pixels (c : cool) : list rowT := c_rows c.
+(** Cooler.pixels()[:] : the selector's length is the nnz attribute *)
+Definition read_pixels (c : cool) : list rowT := firstn (Z.to_nat (c_nnz c)) (c_rows c).
 
 End Rows.
 
@@ -156,9 +171,9 @@ Definition triu_entries (A : list (list Z)) : list pixel := span_chunk 0 A.
 
 (** * api.info : every string attribute is passed through json.loads; kept as a string when that fails.
       [json_word] is the exact decoding for strings over the alphabet [A-Za-z0-9_-] (no whitespace, quotes,
-      brackets, dots, plus signs): integers, integers with exponent (floats), true/false/null and the
-      non-standard literals NaN/Infinity/-Infinity that simplejson accepts. *)
-Inductive jval := JInt (z : Z) | JFloatLit | JBool (b : bool) | JNull | JNonFinite.
+      brackets, dots, plus signs): integers, integers with exponent (floats), true/false/null
+      (the installed simplejson refuses NaN/Infinity). *)
+Inductive jval := JInt (z : Z) | JFloatLit | JBool (b : bool) | JNull.
 
 Definition is_digit (a : ascii) : bool := let n := nat_of_ascii a in (48 <=? n)%nat && (n <=? 57)%nat.
 Definition digit_val (a : ascii) : Z := Z.of_nat (nat_of_ascii a) - 48.
@@ -203,7 +218,6 @@ Definition json_word (s : string) : option jval :=
   if String.eqb s "true" then Some (JBool true)
   else if String.eqb s "false" then Some (JBool false)
   else if String.eqb s "null" then Some JNull
-  else if (String.eqb s "NaN" || String.eqb s "Infinity" || String.eqb s "-Infinity")%bool then Some JNonFinite
   else json_number s.
 
 (** an attribute as returned by info(): decoded JSON value, or the raw string *)
@@ -225,3 +239,16 @@ Definition info_assembly (assembly : option string) : J + string := info_decode 
 Definition info_metadata (empty_doc : J) (metadata : option J) : J + string :=
   info_decode (attr_metadata empty_doc metadata).
 End Info.
+
+(** * Observation helpers for the correspondence run (payload = list of value columns) *)
+Definition all_cells (n : Z) : list (Z * Z) :=
+  flat_map (fun i => map (fun j => (i, j)) (zrange 0 (Z.to_nat n))) (zrange 0 (Z.to_nat n)).
+Definition col_px (k : nat) (rows : list (key * list Z)) : list pixel := px_of (fun v => nth k v 0) rows.
+Definition obs_cool (ncols : nat) (c : @cool (list Z)) :=
+  (c_rows c, c_nnz c, c_sum c, c_symm c, read_pixels c,
+   map (fun k => map (fun ij => dense_full (c_symm c) (col_px k (read_pixels c)) (fst ij) (snd ij))
+                     (all_cells (c_nbins c))) (seq 0 ncols),
+   map (fun k => sparse_full (c_symm c) (col_px k (read_pixels c))) (seq 0 ncols)).
+Definition obs_create (ncols : nat) (r : cerr + @cool (list Z)) :=
+  match r with inl e => inl e | inr c => inr (obs_cool ncols c) end.
+Definition rows_of_px (l : list pixel) : list (key * list Z) := map (fun p => (fst p, [snd p])) l.
